@@ -162,6 +162,20 @@ def check_open_alloc(rep, facts, a, inplace_key):
             tag_ok = y[0] == 'call' and y[1] == 'Serializable::size' and y[4] and y[4][2] and y[4][2].startswith('aead::AeadTag<')
             shape = len_ok and tag_ok
             guard_err = errv
+    if not shape and idx[0] == 'bin' and idx[1] == 'Sub' and idx[2] == ('len', ('param', ctparam)):
+        # explicit comparison + early return, then a plain subtraction
+        y = idx[3]
+        if y[0] == 'call' and y[1] == 'Serializable::size' and y[4] and (y[4][2] or '').startswith('aead::AeadTag<'):
+            from .common import cmp_guard
+            g = cmp_guard(a, sbi, idx[2], y)
+            exact = g['guards'] >= 1 and not g['lt'] and g['eq'] and g['gt']
+            rep.check(exact, 'R05.5', fn, 'split-guard', 'split reachable for len < Nt: %s, len == Nt: %s, len > Nt: %s (%d comparison guard(s))' % (g['lt'], g['eq'], g['gt'], g['guards']),
+                      'the split is reached exactly when len >= Nt (len == Nt is the sealing of the empty plaintext and must be accepted)', where(a, a.term_point(sbi)))
+            # the excluded case returns OpenError
+            errs = [cls for s2, tt, cls in ret_classes(a, facts) if isinstance(cls, tuple) and cls[0] == 'err' and tt[0] == 'agg']
+            rep.check(any(c[1] == frozenset(['OpenError']) for c in errs), 'R05.5', fn, 'short-input-error', [sorted(c[1]) for c in errs],
+                      'a ciphertext shorter than a tag yields OpenError', where(a))
+            return
     rep.check(shape, 'R05.5', fn, 'split-index', found,
               'len(ciphertext).checked_sub(AeadTag::size()) with the None case turned into an error (no unchecked subtraction)',
               where(a, a.term_point(sbi)))
